@@ -14,6 +14,8 @@ def main():
     tier = a.tier if a.tier in ("quick", "thorough") else "quick"
     seed = a.seed if a.seed is not None else int(os.environ.get("VERIF_SEED", "0") or 0)
     prop = a.prop.upper()
+    from harness import cov
+    cov.start()
     try:
         mod = importlib.import_module("harness." + prop.lower())
         R = Run(prop, tier, seed, mod.LEVEL)
